@@ -137,6 +137,37 @@ class P(vlib.Prop):
         vlib.go2coq(ctx, "service", os.path.join(vlib.VERIF, "props", "C13", "t1_telemetry.json"), "C13Telemetry")
         vlib.go2coq(ctx, "config/configtelemetry", os.path.join(vlib.VERIF, "props", "C13", "t1_levels.json"), "C13Levels")
         self.translate_t3(ctx)
+        self.translate_grid(ctx)
+
+    def translate_grid(self, ctx):
+        """T3b (validate grids): run every built-in Validate rule on its finite grid against the current tree,
+        rewrite coq/Generated/C13ValidateGrid.v only when its content changed."""
+        pkgdir = os.path.join(vlib.REPO, "cmd", "otelcorecol")
+        ov = {os.path.join(pkgdir, "zz_verif_c13_grid_test.go"): os.path.join(vlib.VERIF, "harness", "C13", "grid_dump_test.go")}
+        xo = os.environ.get("VERIF_EXTRA_OVERLAY")
+        if xo and os.path.exists(xo):
+            ov.update(json.load(open(xo)).get("Replace", {}))
+        ovp = os.path.join(ctx.work, "overlay_grid.json")
+        json.dump({"Replace": ov}, open(ovp, "w"))
+        import shutil
+        modf = os.path.join(ctx.work, "grid_go.mod")
+        shutil.copyfile(os.path.join(pkgdir, "go.mod"), modf)
+        if os.path.exists(os.path.join(pkgdir, "go.sum")):
+            shutil.copyfile(os.path.join(pkgdir, "go.sum"), os.path.join(ctx.work, "grid_go.sum"))
+        tmp = os.path.join(ctx.work, "C13ValidateGrid.v.new")
+        if os.path.exists(tmp):
+            os.remove(tmp)
+        rc, out = vlib.run(["go", "test", "-modfile=" + modf, "-overlay=" + ovp, "-count=1", "-vet=off", "-run", "^TestVerifC13Grid$", "."],
+                           cwd=pkgdir, env=vlib.goenv({"VERIF_C13_GRID_V": tmp}), timeout=600)
+        if rc != 0 or not os.path.exists(tmp):
+            raise vlib.Broken("translator T3b (validate grids) cannot run the built-in Validate rules", out[-3000:])
+        new = open(tmp).read()
+        dst = os.path.join(vlib.COQ, "Generated", "C13ValidateGrid.v")
+        if not os.path.exists(dst) or open(dst).read() != new:
+            open(dst, "w").write(new)
+        ctx.translator_manifests.append({"file": "Validate methods of the built-in config types on finite grids (run)", "lines": None,
+                                         "sha256": hashlib.sha256(new.encode()).hexdigest(),
+                                         "defines": ["C13ValidateGrid.grid_*"], "params": []})
 
     def translate_t3(self, ctx):
         """T3 (cfgschema): run the reflection dump against the current tree, rewrite
